@@ -544,7 +544,7 @@ Lemma step_eq s e fresh bserial :
   step s e fresh bserial =
   match step_pre s e fresh bserial with
   | Done m | Fail m =>
-      match settle (fuel_for (ms m)) m with
+      match settle (fuel_for m) m with
       | Done m' | Fail m' => Done (ms m', mo m')
       | Panic site => Panic site
       end
@@ -580,7 +580,7 @@ Qed.
 (* a step's result comes out of [settle] run on the result of [step_pre] *)
 Lemma step_inv s e fresh b s' o :
   step s e fresh b = Done (s', o) ->
-  exists m m', step_pre s e fresh b = Done m /\ settle (fuel_for (ms m)) m = Done m' /\
+  exists m m', step_pre s e fresh b = Done m /\ settle (fuel_for m) m = Done m' /\
                s' = ms m' /\ o = mo m'.
 Proof.
   rewrite step_eq. destruct (step_pre s e fresh b) as [m|m|?] eqn:E; [| |discriminate].
@@ -614,6 +614,6 @@ Proof.
     - injection Hpre as <-. cbn. auto.
     - injection Hpre as <-. exact HQ.
     - injection Hpre as <-. cbn. auto. }
-  specialize (Hsettle (fuel_for (ms m)) m Hm). rewrite Hs in Hsettle. exact Hsettle.
+  specialize (Hsettle (fuel_for m) m Hm). rewrite Hs in Hsettle. exact Hsettle.
 Qed.
 
